@@ -1,3 +1,33 @@
-/-  C08/Theorems — the ledger for property C08 (every theorem here is audited).  Placeholder. -/
+/-
+  C08/Theorems — the ledger for property C08 (every theorem here is audited).
+-/
+import OttoVerif.C08.Spec
 namespace OttoVerif.C08.Thm
+open OttoVerif.C08
+
+variable {σ : Type}
+
+theorem moveStep_eq (O : Ops σ) (a b : Nat) : moveStep O a b = Spec.moveOrDelete O a b := rfl
+
+theorem pushLoop_eq (O : Ops σ) (items : List Val) (n : Nat) : pushLoop O items n = Spec.pushItems O items n := by
+  induction items generalizing n with
+  | nil => rfl
+  | cons x xs ih => simp only [pushLoop, Spec.pushItems, ih]
+
+theorem push_refines (O : Ops σ) (items : List Val) : push O items = Spec.push O items := by
+  funext s; simp only [push, Spec.push, pushLoop_eq]
+
+theorem pop_refines (O : Ops σ) : pop O = Spec.pop O := by
+  funext s; simp only [pop, Spec.pop]
+
+theorem shift_refines (O : Ops σ) : shift O = Spec.shift O := by
+  funext s; simp only [shift, Spec.shift]; rfl
+
+theorem putItems_eq (O : Ops σ) (items : List Val) (n : Nat) : putItems O items n = Spec.putFrom O items n := by
+  induction items generalizing n with
+  | nil => rfl
+  | cons x xs ih => simp only [putItems, Spec.putFrom, ih]
+
+theorem unshift_refines (O : Ops σ) (items : List Val) : unshift O items = Spec.unshift O items := by
+  funext s; simp only [unshift, Spec.unshift, putItems_eq]; rfl
 end OttoVerif.C08.Thm
